@@ -72,7 +72,7 @@ func (n *node[T]) buildMethods() {
 	for method := range n.handlers {
 		n.methodIndex += methodIndexMap[method]
 	}
-	if n.root.hasTrace {
+	if n.root.hasTrace && len(n.handlers) > 0 { // 没有处理函数的节点不是路由项
 		n.methodIndex += methodIndexMap[http.MethodTrace]
 	}
 	buildMethodIndexes(n.methodIndex)
